@@ -758,6 +758,10 @@ func (cg *ConsumerGroup) run() {
 		// waiting to receive on the unbuffered error channel.
 		select {
 		case <-cg.done:
+			// after a rebalance signal the member ID is still valid: the group
+			// is being closed while it is a member, so it has to leave (this
+			// is a no-op when the member ID was cleared above).
+			_ = cg.leaveGroup(memberID)
 			return
 		case cg.errs <- err:
 		}
